@@ -5,6 +5,8 @@ comparison of run outcomes, and the concrete programs on which the crate and the
 -/
 import ClvmProofs.Lemmas.RefOps
 import ClvmModel.Proto.Ref
+import ClvmProofs.Lemmas.RefPath
+import ClvmProofs.Lemmas.Interp.MachineBase
 
 namespace Clvm.Ref
 open Clvm Clvm.Interp Clvm.Alloc
@@ -99,5 +101,170 @@ theorem floorDiv_region (args : Tree) :
           simp only [hz, if_false]
           have hq' : ¬ ((pyDivmod i0 i1).1 = -1 ∧ (pyDivmod i0 i1).2 ≠ 0) := hq
           simp only [hq', if_false]
+
+/-! ### runs that consist of a single `eval` step: paths and quotations -/
+
+/-- the budget both machines work with -/
+def effBudget (budget : Nat) : Nat := if budget == 0 then U64_MAX else budget
+
+theorem effBudget_pos (budget : Nat) : effBudget budget ≠ 0 := by
+  unfold effBudget U64_MAX; split <;> simp_all
+
+theorem ghost_ok : ∃ c, (Ctr.new (2 ^ 32 - 1)).addGhostAtom 1 = .ok c := by
+  refine ⟨{ Ctr.new (2 ^ 32 - 1) with atoms := (Ctr.new (2 ^ 32 - 1)).atoms + 1 }, ?_⟩
+  unfold Ctr.addGhostAtom
+  rw [if_neg (by decide)]
+
+theorem model_quote (x env : Tree) (budget fuel : Nat) :
+    ∃ ctr, modelRun (fuel + 1) (.pair (.atom [1]) x) env budget =
+      some (if Gen.QUOTE_COST > effBudget budget then .error .CostExceeded
+            else .ok (Gen.QUOTE_COST, Val.ofTree x, ctr)) := by
+  obtain ⟨c, hc⟩ := ghost_ok
+  refine ⟨c, ?_⟩
+  unfold modelRun runProgram
+  rw [hc]
+  have hq : smallNumber (Val.mkAtom [1]) = some (chiaDialect {} Proto.noExtra 0).quoteKw := by decide
+  have hm1 : Val.mkAtom [1] = .atom [1] true := by decide
+  simp only [Val.ofTree, evalPair, evalOpAtom, hq, beq_self_eq_true, if_true, MState.push]
+  simp only [hm1]
+  have h0 : ((0 : Nat) == Gen.STACK_SIZE_LIMIT) = false := by decide
+  simp only [h0, Bool.false_eq_true, if_false, bind, Except.bind, pure, Except.pure]
+  rw [runLoop_succ]
+  unfold loopBody
+  simp only [effMax, effBudget]
+  by_cases hgt : Gen.QUOTE_COST > (if (budget == 0) = true then U64_MAX else budget)
+  · simp only [hgt, ↓reduceIte]
+  · simp only [hgt, ↓reduceIte, MState.pop]
+
+theorem runWith_budget (ad : Adapters) (fuel : Nat) (p e : Tree) (budget : Nat) :
+    Ref.runWith ad fuel p e (Adapter.u64Budget budget) =
+      Ref.runLoop ad (some (effBudget budget)) fuel { opStack := [.eval], valueStack := [.pair p e], depth := 1 } 0 := by
+  unfold Ref.runWith Adapter.u64Budget effBudget U64_MAX
+  by_cases hb : budget = 0
+  · subst hb; rfl
+  · have : (budget == 0) = false := by simp [hb]
+    simp only [this, Bool.false_eq_true, if_false]
+    cases budget with
+    | zero => exact absurd rfl hb
+    | succ n => rfl
+
+theorem c01_stackLimit (l : Bool) : (Proto.c01Adapters l).stackLimit = some Gen.STACK_SIZE_LIMIT := rfl
+
+theorem ref_quote (lenient : Bool) (x env : Tree) (budget fuel : Nat) :
+    adaptedRun lenient (fuel + 2) (.pair (.atom [1]) x) env budget =
+      some (if QUOTE_COST > effBudget budget then .error .cost else .ok (QUOTE_COST, x)) := by
+  unfold adaptedRun
+  rw [runWith_budget]
+  simp only [Ref.runLoop, evalOp, St.push, c01_stackLimit, effectiveMax]
+  have h0 : ¬ (0 ≥ Gen.STACK_SIZE_LIMIT) := by decide
+  simp only [List.map, show ((1 : UInt8).toNat) = 1 from rfl, beq_self_eq_true, if_true, h0, if_false, Nat.zero_add]
+  by_cases hgt : QUOTE_COST > effBudget budget
+  · simp only [hgt, ↓reduceIte]
+  · simp only [hgt, ↓reduceIte]
+
+theorem evalPair_atom (b : Bytes) (s : MState) (env : Val) :
+    evalPair {} (chiaDialect {} Proto.noExtra 0) s (Val.mkAtom b) env =
+      (do let r ← liftE (Interp.traversePath b env)
+          let s ← s.push r.2
+          pure (r.1, s)) := by
+  have hw := mkAtom_wf b
+  unfold Val.mkAtom at hw ⊢
+  cases ht : Val.newAtomTag b with
+  | false => simp only [evalPair, node, if_true]
+  | true =>
+    rw [ht] at hw
+    simp only [evalPair, node, if_true]
+    rw [traverse_fast_wf b hw env]
+
+theorem model_path (b : Bytes) (env : Tree) (budget fuel : Nat) :
+    ∃ ctr, modelRun (fuel + 1) (.atom b) env budget =
+      some (match Interp.traversePath b (Val.ofTree env) with
+            | .error e => .error e
+            | .ok (c, v) => if c > effBudget budget then .error .CostExceeded else .ok (c, v, ctr)) := by
+  obtain ⟨c, hc⟩ := ghost_ok
+  refine ⟨c, ?_⟩
+  unfold modelRun runProgram
+  rw [hc]
+  simp only [Val.ofTree, evalPair_atom]
+  cases htp : Interp.traversePath b (Val.ofTree env) with
+  | error e => simp only [liftE, bind, Except.bind]
+  | ok r =>
+    obtain ⟨k, v⟩ := r
+    have h0 : ((0 : Nat) == Gen.STACK_SIZE_LIMIT) = false := by decide
+    simp only [liftE, bind, Except.bind, MState.push, h0, Bool.false_eq_true, if_false, pure, Except.pure]
+    rw [runLoop_succ]
+    unfold loopBody
+    simp only [effMax, effBudget]
+    by_cases hgt : k > (if (budget == 0) = true then U64_MAX else budget)
+    · simp only [hgt, ↓reduceIte]
+    · simp only [hgt, ↓reduceIte, MState.pop]
+
+theorem ref_path (lenient : Bool) (b : Bytes) (env : Tree) (budget fuel : Nat) :
+    adaptedRun lenient (fuel + 2) (.atom b) env budget =
+      some (match Ref.traversePath b env with
+            | .error e => .error e
+            | .ok (c, t) => if c > effBudget budget then .error .cost else .ok (c, t)) := by
+  unfold adaptedRun
+  rw [runWith_budget]
+  simp only [Ref.runLoop, evalOp]
+  cases htp : Ref.traversePath b env with
+  | error e => rfl
+  | ok r =>
+    obtain ⟨k, t⟩ := r
+    have h0 : ¬ (0 ≥ Gen.STACK_SIZE_LIMIT) := by decide
+    simp only [St.push, c01_stackLimit, effectiveMax, h0, if_false, Nat.zero_add]
+    by_cases hgt : k > effBudget budget
+    · simp only [hgt, ↓reduceIte]
+    · simp only [hgt, ↓reduceIte]
+
+/-- programs evaluated by a single `eval` step: an environment path (any atom) or a quotation -/
+def OneStep : Tree → Prop
+  | .atom _ => True
+  | .pair op _ => op = .atom [1]
+
+theorem one_step_agree (lenient : Bool) (prog env : Tree) (h1 : OneStep prog) (budget fuel fuel' : Nat)
+    (mo : Except Err (Nat × Val × Ctr)) (ro : Res)
+    (hm : modelRun (fuel + 1) prog env budget = some mo)
+    (hr : adaptedRun lenient (fuel' + 2) prog env budget = some ro) : SameOutcome mo ro := by
+  cases prog with
+  | atom b =>
+    obtain ⟨ctr, hmp⟩ := model_path b env budget fuel
+    rw [hmp] at hm
+    rw [ref_path] at hr
+    simp only [Option.some.injEq] at hm hr
+    subst hm; subst hr
+    have hpa := path_agree b (Val.ofTree env)
+    rw [ofTree_erase] at hpa
+    cases h1m : Interp.traversePath b (Val.ofTree env) with
+    | error e =>
+      cases h1r : Ref.traversePath b env with
+      | error e' => trivial
+      | ok r => rw [h1m, h1r] at hpa; exact hpa.elim
+    | ok r =>
+      obtain ⟨k, v⟩ := r
+      cases h1r : Ref.traversePath b env with
+      | error e' => rw [h1m, h1r] at hpa; exact hpa.elim
+      | ok r' =>
+        obtain ⟨k', t⟩ := r'
+        rw [h1m, h1r] at hpa
+        obtain ⟨rfl, hv⟩ := hpa
+        simp only
+        by_cases hgt : k > effBudget budget
+        · simp only [hgt, ↓reduceIte]; trivial
+        · simp only [hgt, ↓reduceIte]; exact ⟨rfl, hv⟩
+  | pair op x =>
+    simp only [OneStep] at h1
+    subst h1
+    obtain ⟨ctr, hmq⟩ := model_quote x env budget fuel
+    rw [hmq] at hm
+    rw [ref_quote] at hr
+    simp only [Option.some.injEq] at hm hr
+    subst hm; subst hr
+    have hq : Gen.QUOTE_COST = QUOTE_COST := rfl
+    rw [hq]
+    by_cases hgt : QUOTE_COST > effBudget budget
+    · simp only [hgt, ↓reduceIte]; trivial
+    · simp only [hgt, ↓reduceIte]; exact ⟨rfl, ofTree_erase x⟩
+
 
 end Clvm.Ref
